@@ -426,9 +426,9 @@ def analyse(ctx, replace=None, only=None):
     # detached before it is invoked, nothing runs early, clean-up cancels until the scheduler reports no task, and that
     # report does not depend on the task's time
     if R.require(all(n_ in tsf for n_ in ("aws_task_run", "s_run_all", "aws_task_scheduler_has_tasks", "aws_task_scheduler_clean_up", "aws_task_scheduler_schedule_now", "aws_task_scheduler_schedule_future")), "inner scheduler functions not found in source/task_scheduler.c"):
-        C07.run_rules(R, tsf)
+        C07.run_rules(R, tsf, P)
         C07.schedule_rules(R, tsf)
-        C07.has_tasks_rules(R, tsf, batch=False)
+        C07.has_tasks_rules(R, tsf, batch=False, P=P)
 
 
 def launch_state(f):
